@@ -18,6 +18,10 @@ USER = [
     ['unit', 'B1', 'x1b', ['term', [['i:10', 1], ['x0', 1], ['i:100', 1]]]],
     ['unit', 'B1', 'x1c', ['scaled', 'D:0.001', 'x1']],
     ['unit', 'B1', 'x512', ['scaled', 'i:512', 'x0']],
+    # plain int factors given as terms that are normalised as they are; the
+    # ratio of the two scales is no binary fraction
+    ['unit', 'B1', 'xt3', ['term', [['i:3', 1], ['x0', 1]]]],
+    ['unit', 'B1', 'xt7', ['term', [['i:7', 1], ['x0', 1]]]],
     ['unit', 'B1', 'xneg', ['scaled', 'F:-1/4', 'x0']],      # negative scale
     ['unit', 'B1', 'xneg2', ['scaled', 'D:-0.25', 'x0']],
     ['unit', 'B1', 'x2e70', ['scaled', 'i:1180591620717411303424', 'x0']],
